@@ -377,4 +377,166 @@ theorem secLoadData_spec (c : Cls) (tr : List Trans) (ls : LoadSt) (b : SecBuf) 
   · rw [if_neg h3]
     refine ⟨hs, ⟨hb.len, hb.bytes, hb.dsz, hb.ss⟩, by constructor <;> rfl⟩
 
+/-- the invariant only looks at the buffer, the size/offset/type and the recorded stream size -/
+theorem LoadedSec.of_same {tr img} {b b' : SecBuf} (h : LoadedSec tr b img)
+    (e1 : b'.data = b.data) (e2 : b'.size = b.size) (e3 : b'.offset = b.offset)
+    (e4 : b'.dataSize = b.dataSize) (e5 : b'.streamSize = b.streamSize) (e6 : b'.stype = b.stype) :
+    LoadedSec tr b' img := by
+  refine ⟨?_, ?_, ?_, ?_⟩
+  · intro d hd; rw [e2]; exact h.len d (e1 ▸ hd)
+  · intro d hd; rw [e2, e3]; exact h.bytes d (e1 ▸ hd)
+  · intro d hd; rw [e2, e4]; exact h.dsz d (e1 ▸ hd)
+  · rw [e5, e6, e1]; exact h.ss
+
+theorem secGetData_eq (c : Cls) (tr : List Trans) (ls : LoadSt) (b : SecBuf) :
+    secGetData c tr ls b =
+      if (!b.isLoaded && b.canLoad) = true then
+        ((secLoadData c tr ls b).1,
+         if (secLoadData c tr ls b).2.2 = true then (secLoadData c tr ls b).2.1
+         else { (secLoadData c tr ls b).2.1 with canLoad := false })
+      else (ls, b) := rfl
+
+/-- `get_data()` against the stream keeps the loader state and the section invariant -/
+theorem secGetData_spec (c : Cls) (tr : List Trans) (ls : LoadSt) (b : SecBuf) (img : Bytes)
+    (kind : StreamKind) (hs : StOk tr img kind ls) (hb : LoadedSec tr b img) :
+    StOk tr img kind (secGetData c tr ls b).1 ∧ LoadedSec tr (secGetData c tr ls b).2 img ∧
+    SameHdr (secGetData c tr ls b).2 b := by
+  rw [secGetData_eq]
+  obtain ⟨h1, h2, h3⟩ := secLoadData_spec c tr ls b img kind hs hb
+  split
+  · refine ⟨h1, ?_, ?_⟩
+    · split
+      · exact h2
+      · exact h2.of_same rfl rfl rfl rfl rfl rfl
+    · split
+      · exact h3
+      · exact SameHdr.trans (by constructor <;> rfl) h3
+  · exact ⟨hs, hb, SameHdr.refl b⟩
+
+/-! ### reading a table entry: stream-size probe, seek, read -/
+
+/-- the first three stream operations of `section_impl::load` / `segment_impl::load` -/
+def hdrRead (tr : List Trans) (st : IStream) (hdrOff : Int) (n : Nat) : IStream × Bytes :=
+  ((streamSizeOf tr st).1.seekg (trApply tr hdrOff)).read n
+
+@[simp] theorem hdrRead_data (tr st hdrOff n) : (hdrRead tr st hdrOff n).1.data = st.data := by
+  simp [hdrRead]
+@[simp] theorem hdrRead_kind (tr st hdrOff n) : (hdrRead tr st hdrOff n).1.kind = st.kind := by
+  simp [hdrRead]
+
+/-- a table entry read that delivered anything started on a stream that had not failed -/
+theorem hdrRead_gcount (tr : List Trans) (st : IStream) (hdrOff : Int) (n : Nat)
+    (h : (hdrRead tr st hdrOff n).1.gcount ≠ 0) : st.fail = false := by
+  have hg := IStream.good_of_gcount _ _ h
+  have hf := (IStream.seekg_good _ _ hg).2.2
+  cases hx : st.fail
+  · rfl
+  · rw [streamSizeOf_fail tr st hx] at hf; exact absurd hf (by decide)
+
+theorem hdrRead_failed (tr : List Trans) (st : IStream) (hdrOff : Int) (n : Nat)
+    (h : st.fail = true) : (hdrRead tr st hdrOff n).1.gcount = 0 ∧ (hdrRead tr st hdrOff n).2 = [] := by
+  have h1 := streamSizeOf_fail tr st h
+  have h2 := IStream.seekg_fail _ (trApply tr hdrOff) h1
+  have h3 : ((streamSizeOf tr st).1.seekg (trApply tr hdrOff)).good = false := by
+    simp [IStream.good, h2]
+  exact ⟨(IStream.read_not_good _ n h3).1, (IStream.read_not_good _ n h3).2.2⟩
+
+theorem shdrSize_ne_zero (c : Cls) : shdrSize c ≠ 0 := by cases c <;> decide
+theorem phdrSize_ne_zero (c : Cls) : phdrSize c ≠ 0 := by cases c <;> decide
+
+@[simp] theorem decodeShdr_data (c enc r b) : (decodeShdr c enc r b).data = b.data := by cases c <;> rfl
+@[simp] theorem decodeShdr_streamSize (c enc r b) : (decodeShdr c enc r b).streamSize = b.streamSize := by
+  cases c <;> rfl
+@[simp] theorem decodeShdr_dataSize (c enc r b) : (decodeShdr c enc r b).dataSize = b.dataSize := by
+  cases c <;> rfl
+@[simp] theorem decodeShdr_isLoaded (c enc r b) : (decodeShdr c enc r b).isLoaded = b.isLoaded := by
+  cases c <;> rfl
+@[simp] theorem decodeShdr_canLoad (c enc r b) : (decodeShdr c enc r b).canLoad = b.canLoad := by
+  cases c <;> rfl
+@[simp] theorem decodeShdr_index (c enc r b) : (decodeShdr c enc r b).index = b.index := by cases c <;> rfl
+@[simp] theorem decodeShdr_isLazy (c enc r b) : (decodeShdr c enc r b).isLazy = b.isLazy := by cases c <;> rfl
+@[simp] theorem decodeShdr_cls (c enc r b) : (decodeShdr c enc r b).cls = b.cls := by cases c <;> rfl
+
+/-- the section object before its header is read -/
+def secB0 (c : Cls) (tr : List Trans) (ss : BitVec 64) (isLazy : Bool) (idx : Nat) : SecBuf :=
+  { cls := c, stype := 0, size := 0, data := none, dataSize := 0, streamSize := ss,
+    translatorEmpty := tr.isEmpty, isLazy := isLazy, index := idx }
+
+/-- the section after a complete header read, before any data request -/
+def secHdrOnly (c : Cls) (enc : Enc) (tr : List Trans) (st : IStream) (got : Bytes) (ss : BitVec 64)
+    (isLazy : Bool) (idx : Nat) : SecBuf :=
+  { decodeShdr c enc got (secB0 c tr ss isLazy idx) with
+    fileData := fileDataOf c tr st (decodeShdr c enc got (secB0 c tr ss isLazy idx)) }
+
+theorem secLoad_eq (c : Cls) (enc : Enc) (tr : List Trans) (ls : LoadSt) (hdrOff : Int) (isLazy : Bool)
+    (idx : Nat) :
+    secLoad c enc tr ls hdrOff isLazy idx =
+      if ((hdrRead tr ls.st hdrOff (shdrSize c)).1.gcount != shdrSize c) = true then
+        ({ ls with st := (hdrRead tr ls.st hdrOff (shdrSize c)).1 },
+         { secB0 c tr (streamSizeOf tr ls.st).2 isLazy idx with addrSet := true })
+      else
+        if sec64_load_eager isLazy (secHdrOnly c enc tr (hdrRead tr ls.st hdrOff (shdrSize c)).1
+              (hdrRead tr ls.st hdrOff (shdrSize c)).2 (streamSizeOf tr ls.st).2 isLazy idx).isLoaded = true then
+          ((secGetData c tr { ls with st := (hdrRead tr ls.st hdrOff (shdrSize c)).1 }
+              (secHdrOnly c enc tr (hdrRead tr ls.st hdrOff (shdrSize c)).1
+                (hdrRead tr ls.st hdrOff (shdrSize c)).2 (streamSizeOf tr ls.st).2 isLazy idx)).1,
+           { (secGetData c tr { ls with st := (hdrRead tr ls.st hdrOff (shdrSize c)).1 }
+              (secHdrOnly c enc tr (hdrRead tr ls.st hdrOff (shdrSize c)).1
+                (hdrRead tr ls.st hdrOff (shdrSize c)).2 (streamSizeOf tr ls.st).2 isLazy idx)).2
+             with addrSet := true })
+        else
+          ({ ls with st := (hdrRead tr ls.st hdrOff (shdrSize c)).1 },
+           { secHdrOnly c enc tr (hdrRead tr ls.st hdrOff (shdrSize c)).1
+                (hdrRead tr ls.st hdrOff (shdrSize c)).2 (streamSizeOf tr ls.st).2 isLazy idx
+             with addrSet := true }) := rfl
+
+/-- the stream-size clause of `LoadedSec` right after the header read -/
+theorem secLoad_ss (tr : List Trans) (st : IStream) (hdrOff : Int) (n : Nat) (img : Bytes)
+    (hd : st.data = img) (stype : BitVec 32)
+    (h : (hdrRead tr st hdrOff n).1.gcount ≠ 0 ∨ isNullOrNobitsTy stype = true) :
+    (tr = [] ∧ (streamSizeOf tr st).2 = BitVec.ofNat 64 img.length) ∨
+    ((streamSizeOf tr st).2 = u64max ∧
+      (tr = [] → isNullOrNobitsTy stype = true ∧ (none : Option Bytes) = none)) := by
+  cases tr with
+  | cons t tr => exact Or.inr ⟨rfl, fun h => by cases h⟩
+  | nil =>
+    rcases streamSizeOf_nil_size st with ⟨-, h2⟩ | ⟨h1, h2⟩
+    · exact Or.inl ⟨rfl, hd ▸ h2⟩
+    · rcases h with h | h
+      · exact absurd (hdrRead_failed [] st hdrOff n h1).1 h
+      · exact Or.inr ⟨h2, fun _ => ⟨h, rfl⟩⟩
+
+theorem StOk.setSt {tr img kind} {ls : LoadSt} (h : StOk tr img kind ls) (st : IStream)
+    (hd : st.data = img) (hk : st.kind = kind) : StOk tr img kind { ls with st := st } :=
+  ⟨hd, hk, h.allocs⟩
+
+/-- `section_impl::load` establishes the invariant, whatever the stream state and the bytes -/
+theorem secLoad_spec (c : Cls) (enc : Enc) (tr : List Trans) (ls : LoadSt) (hdrOff : Int)
+    (isLazy : Bool) (idx : Nat) (img : Bytes) (kind : StreamKind) (hs : StOk tr img kind ls) :
+    StOk tr img kind (secLoad c enc tr ls hdrOff isLazy idx).1 ∧
+    LoadedSec tr (secLoad c enc tr ls hdrOff isLazy idx).2 img := by
+  rw [secLoad_eq]
+  have hs' : StOk tr img kind { ls with st := (hdrRead tr ls.st hdrOff (shdrSize c)).1 } :=
+    hs.setSt _ (by simp [hs.data]) (by simp [hs.kind])
+  split
+  · refine ⟨hs', fun d hd => (by simp [secB0] at hd), fun d hd => (by simp [secB0] at hd),
+      fun d hd => (by simp [secB0] at hd), ?_⟩
+    exact secLoad_ss tr ls.st hdrOff (shdrSize c) img hs.data 0 (Or.inr (by decide))
+  · rename_i hg
+    have hg' : (hdrRead tr ls.st hdrOff (shdrSize c)).1.gcount ≠ 0 := by
+      have : (hdrRead tr ls.st hdrOff (shdrSize c)).1.gcount = shdrSize c := by simpa using hg
+      rw [this]; exact shdrSize_ne_zero c
+    have hb : LoadedSec tr (secHdrOnly c enc tr (hdrRead tr ls.st hdrOff (shdrSize c)).1
+        (hdrRead tr ls.st hdrOff (shdrSize c)).2 (streamSizeOf tr ls.st).2 isLazy idx) img := by
+      refine ⟨fun d hd => (by simp [secHdrOnly, secB0] at hd), fun d hd => (by simp [secHdrOnly, secB0] at hd),
+        fun d hd => (by simp [secHdrOnly, secB0] at hd), ?_⟩
+      have := secLoad_ss tr ls.st hdrOff (shdrSize c) img hs.data
+        (secHdrOnly c enc tr (hdrRead tr ls.st hdrOff (shdrSize c)).1
+          (hdrRead tr ls.st hdrOff (shdrSize c)).2 (streamSizeOf tr ls.st).2 isLazy idx).stype (Or.inl hg')
+      simpa [secHdrOnly, secB0] using this
+    split
+    · obtain ⟨h1, h2, -⟩ := secGetData_spec c tr _ _ img kind hs' hb
+      exact ⟨h1, h2.of_same rfl rfl rfl rfl rfl rfl⟩
+    · exact ⟨hs', hb.of_same rfl rfl rfl rfl rfl rfl⟩
+
 end ElfioVerif
